@@ -209,6 +209,7 @@ func main() {
 		"operations per goroutine: 12/4/2/1 for 2/8/32/128 goroutines; shared values and shared lists are constructed afresh for every round",
 		"constructor variants rotate per round: RSA identity from ParseIdentity / NewRSAIdentity over a bare component-built key (also after Validate) / over a precomputed key; Ed25519 identity from ParseIdentity / NewEd25519Identity(seed key); recipients from ParseRecipient / New*Recipient(ssh.NewPublicKey(rebuilt key)); in bare-key rounds the first call of up to 6 goroutines is an ssh-rsa decryption",
 		"library-defaults stage: passphrase operations at the default work factor 18 (256 MiB each) run in a child built without -race; a hang is reported only if nothing completed for 60 s and every unfinished worker is parked in filippo.io/age code (goroutine dump), otherwise the run is inconclusive",
+		"caller variations rotate per operation (Close twice, Close plus deferred Close, Write after Close, zero-length Writes/Reads, an extra writer abandoned without Close, Reads past EOF); each encrypting round starts with 4 lone encryptions closed twice, made after the round's GOMAXPROCS is set; two goroutines never call Close on one stream concurrently",
 		"shared lists: three []age.Identity orders of the four identities and two []age.Recipient lists, spread with ... into the calls; checked unchanged after every round that used them, plus a sequential pass",
 		"EncryptedSSHIdentity (caches the decrypted key) and plugin values are outside the property's list of types and are not exercised",
 		"decryption inputs and the check of encryption outputs come from the reference implementation (refage), validated against the CCTV vectors at start-up",
@@ -261,6 +262,8 @@ func main() {
 	cover := map[string]map[string]int{"goroutines": {}, "gomaxprocs": {}, "payload": {}, "mix": {}}
 	var rounds, ioCalls, listChecks, seqOps, bareRounds, bareOverlapRounds, bareFirstPairs int64
 	provTab := map[string]map[string]int{}
+	variantTab := map[string]int{}
+	var encRounds, armedRounds, dblCloseOps int64
 	rawRaces, ageRaces, harnessRaces := 0, 0, 0
 	dedup := map[string]int{}
 
@@ -276,6 +279,16 @@ func main() {
 				}
 				provTab[k][v]++
 			}
+			for k, v := range ro.Variants {
+				variantTab[k] += v
+			}
+			if ro.Mix != "dec" {
+				encRounds++
+				if ro.WarmDoubleClose >= 3 && ro.EncOverlapPairs >= 1 {
+					armedRounds++
+				}
+			}
+			dblCloseOps += int64(ro.DoubleCloseOps + ro.WarmDoubleClose)
 			if ro.BareRSA {
 				bareRounds++
 				if ro.BareFirstPairs > 0 {
@@ -469,6 +482,9 @@ func main() {
 	if minBare := int64(r.Pick(40, 300)); bareOverlapRounds < minBare {
 		r.Inconclusive("only %d rounds (min %d) had a fresh RSA identity over a bare key (no Precomputed values) whose first private-key calls overlapped", bareOverlapRounds, minBare)
 	}
+	if armedRounds*10 < encRounds*6 || encRounds == 0 {
+		r.Inconclusive("only %d of %d encrypting rounds had >= 3 streams closed twice in the warm-up followed by overlapping encryptions (min 60%%)", armedRounds, encRounds)
+	}
 	if rounds != int64(reps*roundsPerRep) && len(dedup) == 0 {
 		r.Inconclusive("%d of %d rounds completed", rounds, reps*roundsPerRep)
 	}
@@ -484,6 +500,10 @@ func main() {
 	r.Count("bare_rsa_key_rounds_with_overlapping_first_calls", bareOverlapRounds)
 	r.Count("bare_rsa_key_overlapping_first_call_pairs", bareFirstPairs)
 	r.Set("rounds_by_constructor_variant", provTab)
+	r.Set("ops_by_caller_variation", variantTab)
+	r.Count("rounds_with_double_close_warm_up_then_overlapping_encryptions", armedRounds)
+	r.Count("encrypting_rounds", encRounds)
+	r.Count("streams_closed_twice", dblCloseOps)
 	r.Count("overlapping_pairs_total", int64(totalPairs))
 	r.Count("overlapping_pairs_in_wrap_unwrap_phase_total", int64(totalHead))
 	r.Count("overlap_signatures_total", int64(totalSigs))
